@@ -149,7 +149,7 @@ func c12ReadFilter(c *core.Ctx, rule string, rd *ssa.Function, tag string) {
 }
 
 func c12(c *core.Ctx) {
-	c.Explain("C12 (message expiry): decided statically — R1 in both queue back ends Read never appends an element for which ElemExpiry holds and reports it through NotifyDropped; the in-flight renewal of the deadline in ReadInflight applies only to elements that already carry a packet id; R2 in addMsgToQueueLocked the message's interval (seconds) and the configured maximum (time.Duration) are compared in the same unit, and when the interval exceeds the maximum the deadline is computed from the maximum; R3 pollNewMessages forwards 'received interval − waited' (never 0 for a non-zero interval, no unsigned underflow, never the elapsed time or a deadline-derived value) and samples the clock after the blocking queue read.")
+	c.Explain("C12 (message expiry): decided statically — R1 in both queue back ends Read never appends an element for which ElemExpiry holds and reports it through NotifyDropped; the in-flight renewal of the deadline in ReadInflight applies only to elements that already carry a packet id; R2 in addMsgToQueueLocked the message's interval (seconds) and the configured maximum (time.Duration) are compared in the same unit, and when the interval exceeds the maximum the deadline is computed from the maximum; R3 pollNewMessages forwards 'received interval − waited' (never 0 for a non-zero interval, no unsigned underflow, never the elapsed time or a deadline-derived value) and samples the clock after the blocking queue read. Added in the second round: The signed form of the remaining lifetime is accepted only under a guard that keeps the stored value positive.")
 	c.NotDecided("real-time behaviour (when the clock crosses the deadline), arithmetic of whole-second rounding")
 	p := c.P
 	c12ReadFilter(c, "C12.R1", p.Func("persistence/queue/mem", "(*Queue).Read"), "mem")
